@@ -70,6 +70,129 @@ def cases(tier, rng):
         if paused:
             ops.append(['resume', clock])
         yield dict(c, ops=ops + _finish(400))
+    yield from _audit_cases(quick, rng, sets)
+
+
+def _rand_hist(c, rng, nops):
+    """random history over the full grammar: pops (incl. zero-size, NumPy sizes), pause/resume in any order (pause
+    while paused, resume while running), times on and off the grid and as NumPy scalars / keywords / omitted,
+    get_closest_key queries, clone()"""
+    ops, clock = [], 0
+    for _ in range(nops):
+        u = rng.random()
+        if u < 0.45:
+            k = rng.choice([0, 1, 2, 3, 5, 8, 12])
+            ops.append(['pop', k, rng.choice(['', '', 'np', 'kw'])])
+            clock += k
+        elif u < 0.70:
+            if rng.random() < 0.15:
+                ops.append(['pause', None, rng.choice(['', 'noarg', 'kw'])])
+                continue
+            t = rng.randint(max(0, clock - 15), clock) + rng.choice([0, 0, 0.3, -0.3, 0.5, -0.5, 0.45])
+            if t < 0 or qc.eff_time(c, t) > clock:
+                t = clock
+            ops.append(['pause', t, rng.choice(['', '', 'np', 'kw'])])
+            clock = qc.eff_time(c, t)
+        elif u < 0.90:
+            if rng.random() < 0.2:
+                ops.append(['resume', None, rng.choice(['', 'noarg', 'kw'])])
+                continue
+            t = max(0, clock + rng.choice([0, 0, 1, 5, -2, 0.5, 2.5, 0.3, -0.7]))
+            ops.append(['resume', t, rng.choice(['', '', 'np', 'kw'])])
+            clock = qc.eff_time(c, t)
+        elif u < 0.97:
+            ops.append(['closest', rng.choice([clock, clock - 1, clock - 3.5, clock + 2, 0, -1])])
+        elif not any(st.get('dkind') == 'gen' for st in c['stims']):
+            ops.append(['clone'])
+    return ops + [['resume', clock]]
+
+
+def _audit_cases(quick, rng, sets):
+    """Argument kinds, sentinel values, comparison boundaries and operation orders the generators above never
+    reached (coverage audit).  Domain: pause times whose sample index is not after the clock; a rejected pause
+    ends the history."""
+    rep = 1 if quick else 6
+    fin = _finish(300)
+
+    def base(pol, st, **kw):
+        c = {'pol': pol, 'gs': rng.randint(1, len(st) + 1), 'stims': st, 'fs': rng.choice(FS), 't0': rng.choice([0, 0, 40, 12.34, -6]),
+             'seed': rng.randint(0, 50), 'fill': rng.choice(['append', 'extend', 'mixed'])}
+        c.update(kw)
+        return c
+    for pol in qc.POLICIES:
+        st = sets[1]
+        # times as NumPy scalars / keywords; off the grid (pause: the sample index round((t-t0)*fs) decides; resume:
+        # the next trial starts at round(t2*fs)/fs); half-sample ties
+        for a in (5, 9, 14):
+            for _ in range(rep):
+                c = base(pol, st)
+                t = rng.randint(0, a - 1) + rng.choice([0.3, 0.5, -0.3, 0.49, 0.0])
+                t = max(t, 0)
+                yield dict(c, ops=[['pop', a], ['pause', t, rng.choice(['', 'np', 'kw'])], ['pop', 3, 'np'],
+                                   ['resume', t + rng.choice([2.5, 0.3, 1.7, 3.5, 0]), rng.choice(['', 'np', 'kw'])]] + fin)
+        # absolute times that are falsy (0.0 / int 0) but are not "no time given"
+        for a in (6, 11):
+            yield dict(base(pol, st, t0=-5), ops=[['pop', a], ['pause', 5], ['pop', 2], ['resume', 5]] + fin)
+            yield dict(base(pol, st, t0=-5), ops=[['pop', a], ['pause', 3], ['pop', 2], ['resume', 5], ['pop', 4], ['pause', 5], ['resume', 7]] + fin)
+            yield dict(base(pol, st, t0=0), ops=[['pop', a], ['pause', 0, 'int0'], ['pop', 2], ['resume', 0, 'int0']] + fin)
+            yield dict(base(pol, st, t0=0), ops=[['pop', a], ['pause', 4], ['pop', 2], ['resume', 0, rng.choice(['', 'int0', 'np'])]] + fin)
+            yield dict(base(pol, st, t0=0, mk={'t0': 'skip'}), ops=[['pop', a], ['pause', 0], ['resume', 0, 'kw']] + fin)
+        # the rejection boundary: the clock itself, one sample later, and what rounds onto either
+        for a in (4, 7):
+            c = base(pol, st)
+            for t in (a, a + 1, a + 0.4, a + 0.6, a - 0.4):
+                yield dict(c, ops=[['pop', a], ['pause', t]] + fin)
+            yield dict(c, ops=[['pop', a], ['pause', 2], ['resume', 1], ['pop', 3], ['pause', 5]] + fin)     # clock 4 after the resume
+            yield dict(c, ops=[['pop', a], ['pause', 2], ['resume', 1], ['pop', 3], ['pause', 4]] + fin)
+        # every order of the three operations: pause before anything, pause while paused, resume while running,
+        # untimed then timed, arguments omitted
+        c = base(pol, st)
+        yield dict(c, ops=[['pause', 0], ['pop', 3], ['resume', 3]] + fin)
+        yield dict(c, ops=[['pause', None, 'noarg'], ['pop', 3], ['resume', None, 'noarg']] + fin)
+        for a in (5, 8, 12):
+            yield dict(c, ops=[['pop', a], ['pause', a - 2], ['pause', a - 4], ['pop', 2], ['resume', a]] + fin)
+            yield dict(c, ops=[['pop', a], ['pause', a - 4], ['pop', 1], ['pause', a - 3], ['resume', None]] + fin)
+            yield dict(c, ops=[['pop', a], ['pause', None], ['pop', 2], ['pause', a - 1], ['pop', 2], ['resume', None, 'noarg']] + fin)
+            yield dict(c, ops=[['pop', a], ['resume', a + 3], ['pop', 4], ['resume', a - 2], ['pop', 2], ['pause', a - 1], ['resume', a - 1]] + fin)
+            yield dict(c, ops=[['pop', a], ['pause', a - 1], ['resume', a + 2], ['resume', a]] + fin)
+            yield dict(c, ops=[['pop', a], ['pop', 0], ['pause', a - 1], ['pop', 0], ['closest', a - 1], ['closest', a - 4], ['clone'],
+                               ['pop', 2], ['closest', a + 1], ['resume', a], ['closest', a]] + fin)
+        # declared duration different from the waveform length: "ends after t" is about the declared duration
+        for dv in (2, -1, 'zero'):
+            std = [dict(x, dur=(0 if dv == 'zero' else max(0, x['len'] + dv))) for x in st]
+            c = base(pol, std)
+            for t in range(0, 10, 1 if not quick else 2):
+                yield dict(c, ops=[['pop', 9], ['pause', t], ['pop', 2], ['resume', t + 1]] + fin)
+        # trials set up with decrement=False are cancelled (notified) but there is nothing to restore
+        P = [{'len': 3, 'trials': 2, 'kind': 'array', 'delays': 1}, {'len': 1, 'trials': 1, 'kind': 'gen', 'delays': 0}]
+        c = base(pol, P)
+        for a in (3, 6, 9):
+            t = rng.randint(0, a + 4)
+            yield dict(c, ops=[['pop', a, 'nd'], ['pop', 4], ['pause', t], ['pop', 2, 'nd'], ['resume', t + 1], ['pop', 5, 'ndkw']] + fin)
+        # constructor variants
+        for mk in ({'via': 'dict', 'opt': 'default'}, {'fs': 'set_fs', 'fs_kind': 'np64', 'opt': 'pos'}, {'fs_kind': 'int', 'opt': 'truthy'}):
+            c = base(pol, st, mk=mk, seed=0, fs=1000.0)
+            t = rng.randint(0, 9)
+            yield dict(c, ops=[['pop', 9], ['pause', t], ['pop', 2], ['resume', t + 3]] + fin)
+    # random histories over the full grammar, stimuli of every container / trial-count / delay kind
+    for _ in range(120 if quick else 3000):
+        n = rng.randint(1, 3)
+        st = []
+        for _ in range(n):
+            x = {'len': rng.randint(1, 6), 'trials': rng.randint(1, 3), 'delays': rng.choice([0, 1, 3, None, 1.5, 0.4]),
+                 'kind': rng.choice(['array', 'gen', 'cos2', 'i64', 'f32', 'ro', 'view', 'list', 'i16']),
+                 'tkind': rng.choice(['int', 'int', 'np', 'float']), 'dkind': rng.choice(['auto', 'np', 'int0'])}
+            if rng.random() < 0.25:
+                x['delays'] = [rng.randint(0, 3) for _ in range(rng.randint(1, 3))]
+                x['dkind'] = 'cycle'
+            elif rng.random() < 0.15:
+                x['delays'] = [rng.randint(0, 3) for _ in range(40)]
+                x['dkind'] = rng.choice(['auto', 'tuple', 'ndarray', 'iter', 'gen'])
+            if rng.random() < 0.2:
+                x['meta'] = rng.choice([0, '', {'a': 1}, 'x'])
+            st.append(x)
+        c = base(rng.choice(qc.POLICIES), st, fill=rng.choice(['append', 'extend', 'mixed', 'extend_scalar', 'extend_np']))
+        yield dict(c, ops=_rand_hist(c, rng, rng.randint(3, 14)) + _finish(400))
 
 
 def impl(case):
@@ -106,77 +229,79 @@ def oracle(case, res):
     """C04 judged on the implementation's notifications only."""
     stims = case['stims']
     req = [s['trials'] for s in stims]
-    live = []          # [key, t0] of trials added and not removed
+    live = []          # [key, start sample, decremented] of trials added and not removed
     paused = False
     timed_pause = False
     expect_start = None
+    clk = 0            # queue clock (samples) before the current operation
     for o, r in zip(case['ops'], res):
         if o[0] == 'pause':
-            if o[1] is not None and 'raised' not in r:
-                pass
+            t = None if o[1] is None else qc.eff_time(case, o[1])      # sample index the time denotes
             if 'raised' in r:
                 # must be a future pause
-                return None if (o[1] is not None and o[1] > clock(res, r)) else 'pause raised ValueError for a time not after the clock'
-            if o[1] is not None:
-                if o[1] > prev_clock(res, r):
+                return None if (t is not None and t > clk) else 'pause raised ValueError for a time not after the clock'
+            if t is not None:
+                if t > clk:
                     return 'a pause time later than the queue clock was accepted'
-                t = o[1]
-                should = [x for x in live if x[1] + stims[x[0]]['len'] > t]
+                should = [x[:2] for x in live if x[1] + qc.declared_dur(stims[x[0]]) > t]
                 got = [[e[1], e[2]] for e in r['events'] if e[0] == 'removed']
                 if sorted(got) != sorted(should):
-                    return f'pause({t}): removed {sorted(got)}, but the trials ending after t are {sorted(should)}'
+                    return f'pause({o[1]}): removed {sorted(got)}, but the trials ending after t are {sorted(should)}'
                 for x in got:
-                    live.remove(x)
+                    live.remove(next(y for y in live if y[:2] == x))
                 if r['status']['samples'] != t:
-                    return f'pause({t}) left the clock at {r["status"]["samples"]}'
+                    return f'pause({o[1]}) left the clock at {r["status"]["samples"]}'
+            elif r['events']:
+                return 'pause() without a time sent notifications'
             paused = True
-            timed_pause = o[1] is not None
+            timed_pause = timed_pause or t is not None
         elif o[0] == 'resume':
             paused = False
             # after pause(t) nothing is pending, so the next trial starts at the resume time; after an
             # untimed pause the interrupted trial / delay simply continues
             expect_start = r['status']['samples'] if timed_pause else None
-            if o[1] is not None and r['status']['samples'] != o[1]:
+            timed_pause = False
+            if o[1] is not None and r['status']['samples'] != qc.eff_time(case, o[1]):
                 return f'resume({o[1]}) left the clock at {r["status"]["samples"]}'
-        else:
+            if o[1] is None and r['status']['samples'] != clk:
+                return f'resume() moved the clock from {clk} to {r["status"]["samples"]}'
+            if r['events']:
+                return 'resume sent notifications'
+        elif o[0] == 'pop':
             if 'raised' in r:
                 return f'pop_buffer raised {r["raised"]}'
             added = [e for e in r['events'] if e[0] == 'added']
+            if [e for e in r['events'] if e[0] == 'removed']:
+                return 'a removed notification outside pause'
             if paused and (added or any(v != 0 for v in r['wave'])):
                 return 'output or a new trial while paused'
+            if len(r['wave']) != max(o[1], 0) or r['status']['samples'] != clk + len(r['wave']):
+                return f'request of {o[1]} samples returned {len(r["wave"])}, clock {clk} -> {r["status"]["samples"]}'
             for e in added:
                 if expect_start is not None:
-                    if any(sum(req) == 0 for _ in [0]):
-                        pass
                     if e[2] != expect_start:
                         return f'first trial after resume starts at {e[2]}, not at the resume time {expect_start}'
                     expect_start = None
-                live.append([e[1], e[2]])
-        # conservation at every step, exact policies: remaining = requested - live presentations
-        if 'status' in r and case['pol'] in qc.EXACT:
-            net = [sum(1 for x in live if x[0] == k) for k in range(len(stims))]
+                live.append([e[1], e[2], e[6]])
+        # conservation at every step: remaining = requested - live (automatically decremented) presentations
+        if 'status' in r:
+            clk = r['status']['samples']
+            net = [sum(1 for x in live if x[0] == k and x[2]) for k in range(len(stims))]
             want = [a - b for a, b in zip(req, net)]
             if r['status']['remaining'] != want:
                 return f'after {o}: remaining trials {r["status"]["remaining"]}, but requested - (added - removed) = {want}'
-    last = res[-1]
-    if 'status' in last and last['status']['empty'] and not paused:
-        net = [sum(1 for x in live if x[0] == k) for k in range(len(stims))]
+    last = [r for r in res if 'status' in r]
+    last = last[-1] if last and 'raised' not in res[-1] else None
+    if last is not None and last['status']['empty'] and not paused:
+        net = [sum(1 for x in live if x[0] == k and x[2]) for k in range(len(stims))]
         if case['pol'] in qc.EXACT:
             if net != req:
                 return f'at empty: non-cancelled presentations {net}, requested {req}'
         elif any(a < b for a, b in zip(net, req)):
             return f'at empty: non-cancelled presentations {net} fewer than requested {req}'
-    elif 'status' in last and not paused:
+    elif last is not None and not paused:
         return 'queue never reported empty'
     return None
-
-
-def clock(res, r):
-    i = res.index(r)
-    return res[i - 1]['status']['samples'] if i > 0 else 0
-
-
-prev_clock = clock
 
 
 def distribution(cases, results):
